@@ -197,16 +197,23 @@ def analyse(ctx, fen, ops, impl, model, variant, stats):
     ctx.distinct(hash((fen, ops)))
 
 
-def run_histories(ctx, hist, init, variant, stats, workers, env=None):
+def run_histories(ctx, hist, init, variant, stats, workers, env=None, model_cache=None):
+    """model_cache: dict line -> model output; filled by the first (plain) pass and reused by the sanitizer pass"""
     vh = harness(vlib.cxx_build(variant, ("vharness",)))
     drv = vlib.driver_bin()
     chunk = 40
     parts = [hist[i:i + chunk] for i in range(0, len(hist), chunk)]
+    if model_cache is None: model_cache = {}
 
     def work(part):
         lines = [f"pos run {f} | {o}" for f, o, _ in part]
         a = run_chunk(vh, init, lines, env)
-        b = run_chunk(drv, init, lines) if variant == "plain" or True else None
+        if all(l in model_cache for l in lines):
+            b = (0, ["ok"] + [model_cache[l] for l in lines], "")
+        else:
+            b = run_chunk(drv, init, lines)
+            if b[0] == 0 and len(b[1]) == len(lines) + 1:
+                for l, o in zip(lines, b[1][1:]): model_cache[l] = o
         return part, lines, a, b
 
     nviol = 0
@@ -284,11 +291,12 @@ def run(ctx):
         k = min(batch, n - done)
         hist = gen_histories(ctx, vh, k, quick)
         hist += [(f, "", 1) for f in WITNESS_FENS] if done == 0 else []
-        run_histories(ctx, hist, init, "plain", stats, workers)
+        cache = {}
+        run_histories(ctx, hist, init, "plain", stats, workers, model_cache=cache)
         if ctx.violations: break
         # ASan + UBSan build: all histories in quick; promotion-heavy + every 4th otherwise
         san = hist if quick else [h for i, h in enumerate(hist) if h[2] == 1 or i % 4 == 0]
-        run_histories(ctx, san, init, "asan", stats, workers)
+        run_histories(ctx, san, init, "asan", stats, workers, model_cache=cache)
         done += k
         ctx.log(f"{done}/{n} histories, {stats['ops']} ops, max queens {stats['max_queens_one_side']}")
     ctx.cov["history_stats"] = stats
